@@ -135,7 +135,14 @@ fn build(items: Vec<Item>, slots: &[(String, String)], assign: &[usize], style_s
                 }
             }
         }
-        for (root, entries) in group {
+        for (k2, (root, mut entries)) in group.into_iter().enumerate() {
+            // a group may also name things that are not types (a module, a function, `self`), before or after the types
+            match (k + k2) % 4 {
+                0 => entries.push("helper_fn".into()),
+                1 => entries.push("submodule::{inner_fn, self}".into()),
+                2 => entries.insert(0, "self".into()),
+                _ => {}
+            }
             f.uses.push(format!("use {}::{{{}}};", root, entries.join(", ")));
         }
         if !qual.is_empty() {
